@@ -1,6 +1,7 @@
 // Records the case under execution when the process dies inside the code under test (sanitizer report, failed
 // PaRSEC assert), so that the driver gets a replay file instead of an anonymous crash.  One translation unit only.
 #pragma once
+#include <cassert>
 #include <unistd.h>
 #include <sanitizer/asan_interface.h>
 #include <sanitizer/common_interface_defs.h>
@@ -18,7 +19,7 @@ inline void install() { __asan_set_error_report_callback(on_report); __sanitizer
 inline void set(const std::string &repr) { current() = repr; }
 }
 #ifndef CRASHNOTE_NO_ASSERT_HOOK
-extern "C" void __assert_fail(const char *assertion, const char *file, unsigned int line, const char *function) {
+extern "C" void __assert_fail(const char *assertion, const char *file, unsigned int line, const char *function) noexcept {
     const char *b = strrchr(file, '/');
     std::string m = std::string("assert(") + assertion + ") failed at " + (b ? b + 1 : file) + ":" + std::to_string(line) + " in " + function;
     fprintf(stderr, "ASSERT: %s\n", m.c_str());
